@@ -164,7 +164,7 @@ func (w *_nodeRepr) LookupByString(key string) (datamodel.Node, error) {
 		}
 		return reprNode(v), nil
 	default:
-		v, err := (*_node)(w).LookupByString(key)
+		v, err := (*_node)(w).lookupByString(key, true)
 		if err != nil {
 			return nil, err
 		}
@@ -912,6 +912,9 @@ func (w *_assemblerRepr) AssignString(s string) error {
 		}
 		members := w.schemaType.(*schema.TypeEnum).Members()
 		for _, member := range members {
+			if mapped, renamed := stg[member]; renamed && mapped != "" && mapped != member {
+				continue // a member with its own representation string is written only as that string
+			}
 			if s == member {
 				return (*_assembler)(w).AssignString(member)
 			}
